@@ -249,9 +249,13 @@ func (f File) Validate() error {
 			structTypeUsage[stName] = usage
 		}
 	}
-	for stName, usage := range structTypeUsage {
-		if usage[stName] {
-			return fmt.Errorf("struct %s recursively includes itself as a required field", stName)
+	// walk the structs in declaration order so that the same one is reported every time
+	// (the keys of structTypeUsage are exactly these names)
+	for _, st := range f.Structs {
+		for _, stName := range []string{st.Name, strings.TrimPrefix(st.Name, st.Namespace+".")} {
+			if structTypeUsage[stName][stName] {
+				return fmt.Errorf("struct %s recursively includes itself as a required field", stName)
+			}
 		}
 	}
 
